@@ -121,7 +121,6 @@ func cmdFn(args []string) {
 	}
 }
 
-func cmdCheck(args []string) int { return 2 }
 
 // cmdLemmas: prove spec-library lemmas (developer tool).
 func cmdLemmas(args []string) {
